@@ -187,6 +187,7 @@ structure ReplyAd where
   result      : Bool            -- AdBool(reply, Result), false when absent
   unsupported : Bool := false   -- CCBStreamingUnsupported
   err         : String := ""    -- ErrorString
+  claim       : Option String := none   -- a ClaimId attribute the reply itself carries (results forwarded by a broker do); never consulted
   deriving DecidableEq, Repr, Inhabited
 
 inductive PReply
